@@ -49,7 +49,9 @@ def result_summary(res, want_skel=False):
     if oc == "ok":
         if "tree" in res:
             r["fp"] = fingerprint(res["tree"])
-            if want_skel:
+            if want_skel == "pruned":
+                r["skel"] = skel_hash_pruned(res["tree"], res.get("root_str", ""))
+            elif want_skel:
                 r["skel"] = skel_hash(res["tree"], res.get("root_str", ""))
             r["text"] = hashlib.sha1(res.get("root_str", "").encode()).hexdigest()[:12]
         else:
@@ -59,3 +61,32 @@ def result_summary(res, want_skel=False):
     elif oc == "err":
         r["err"] = pp.err_to_spec(res["err"])
     return r
+
+
+def skeleton_pruned(tree, text, drop_kinds=("WhiteSpace", "ResetallCompilerDirective")):
+    """like skeleton(), but subtrees of the kinds in drop_kinds are removed and so is every node that is left
+    without any token (a `resetall between descriptions is a description of its own, not a WhiteSpace node)"""
+    k = tree["kinds"]
+    tb = text.encode()
+    stack = [[]]      # each frame: list of rendered children
+    kinds_stack = []
+    for e in tree["ev"]:
+        i = abs(e) - 1
+        if e > 0:
+            kinds_stack.append(k[i])
+            stack.append([])
+        else:
+            kind = kinds_stack.pop()
+            children = stack.pop()
+            if kind in drop_kinds:
+                continue
+            if kind == "Locate":
+                o, l, ln = tree["locs"][i]
+                stack[-1].append(tb[o:o + l].decode("utf-8", "replace"))
+            elif children:
+                stack[-1].append([kind] + children)
+    return stack[0]
+
+
+def skel_hash_pruned(tree, text):
+    return hashlib.sha1(json.dumps(skeleton_pruned(tree, text)).encode()).hexdigest()[:16]
